@@ -212,7 +212,15 @@ func buildShared(seed int64, nmaps, ndocs int) *sharedObjects {
 		// present but EMPTY: an observer that canonicalises "in place" would write to it on first sight
 		pl.Steps = append(pl.Steps, &pipeline.CommandStep{Command: "fresh", Plugins: pipeline.Plugins{
 			{Source: "docker#v1", Config: map[string]any{}}, {Source: "ecr#v2", Config: []any{}}, {Source: "./local", Config: nil}},
-			Env: map[string]string{}, Matrix: &pipeline.Matrix{Setup: pipeline.MatrixSetup{"": {"a"}}, Adjustments: pipeline.MatrixAdjustments{}}})
+			Env: map[string]string{}, Matrix: &pipeline.Matrix{Setup: pipeline.MatrixSetup{"": {"a"}}, Adjustments: pipeline.MatrixAdjustments{}},
+			// more unknown keys than known ones (a marshaller must not borrow this map as its scratch space)
+			RemainingFields: map[string]any{"agents": map[string]any{"queue": "q"}, "retry": 1, "timeout_in_minutes": 5, "soft_fail": true, "priority": 2, "concurrency": 1, "branches": "main"}})
+		if pl.RemainingFields == nil {
+			pl.RemainingFields = map[string]any{}
+		}
+		for _, k := range []string{"agents", "notify", "x1", "x2", "x3", "x4"} {
+			pl.RemainingFields[k] = "top-" + k
+		}
 		s.pipe = pl
 		break
 	}
@@ -353,6 +361,20 @@ func ownWork(src, keyAlg, repo string, item, nitems int) []c19Op {
 			ierr := p.Interpolate(nil, false)
 			b, _ := json.Marshal(p)
 			return digest(ierr == nil, string(b))
+		}},
+		{"ParseUninferable", "", func() string {
+			// a step whose kind cannot be inferred, at a position that is this work item's own: the warning names
+			// THAT position, whatever other goroutines parse meanwhile
+			steps := []string{}
+			for j := 0; j < item; j++ {
+				steps = append(steps, `"wait"`)
+			}
+			steps = append(steps, fmt.Sprintf(`{"label":"own-%d"}`, item), `"wait"`)
+			_, err := pipeline.Parse(strings.NewReader(`{"steps":[` + strings.Join(steps, ",") + `]}`))
+			if err == nil {
+				return digest("no warning")
+			}
+			return digest(warning.Is(err), err.Error())
 		}},
 		{"Parse", "", func() string {
 			p, err := pipeline.Parse(strings.NewReader(src))
@@ -575,5 +597,5 @@ func runC19(args []string) {
 	}
 	f.Close()
 	writeSummary(fl.str("summary", ""), obj{"events": nseq + nconc + races, "sequential_events": nseq, "concurrent_events": nconc, "race_reports": races,
-		"samples": []any{obj{"goroutines": fl.int("goroutines", 16), "rounds": fl.int("rounds", 20), "shared_objects": "ordered maps with tombstones (MapSA, MapSS), a signed pipeline, an env map", "ops": "Get Range ToMap Derive(TransformValues,AssertValues,ToMapRecursive) Equal MarshalJSON MarshalYAML FullSource Verify RejectedPermutation SignShared SignWithSharedEnv; own: InterpolateNilEnv Parse Interpolate MarshalYAML SignVerify"}}})
+		"samples": []any{obj{"goroutines": fl.int("goroutines", 16), "rounds": fl.int("rounds", 20), "shared_objects": "ordered maps with tombstones (MapSA, MapSS), a signed pipeline, an env map", "ops": "Get Range ToMap Derive(TransformValues,AssertValues,ToMapRecursive) Equal MarshalJSON MarshalYAML FullSource Verify RejectedPermutation SignShared SignWithSharedEnv; own: InterpolateNilEnv ParseUninferable Parse Interpolate MarshalYAML SignVerify"}}})
 }
